@@ -21,12 +21,14 @@
      attempt of the label runs try min(n, last).  A label that commits goes to the next one; after the last
      label the archetype reaches Done.  This is the scripted body of the harness; the theorems hold for every
      such program.
-   * interleaving: one scheduler event `step st a` lets archetype a perform its next op; when the ops of the
-     attempt are exhausted the step finishes the attempt (forced abort, or Goto + commit) and the Run loop begins
-     the next attempt (BeginEvent, InitCriticalSection, Read .pc).  A failing op aborts the attempt at once.
-   * what the environment decides (a lock is busy until the timeout, a channel/mailbox is empty until the
-     timeout) is a function of the modelled state: the harness is the only driver, so a busy lock stays busy and
-     an empty queue stays empty for the whole timeout.  Network errors on loopback are not modelled.
+   * interleaving: one scheduler event `step st (a, tmo)` lets archetype a perform its next op; when the ops of
+     the attempt are exhausted the step finishes the attempt (forced abort, or Goto + commit) and the Run loop
+     begins the next attempt (BeginEvent, InitCriticalSection, Read .pc).  A failing op aborts the attempt at once.
+   * what the environment decides: where nothing is available (a lock held by another instance, an empty
+     channel/mailbox) the op aborts - the harness is the only driver, so a busy lock stays busy and an empty
+     queue stays empty for the whole timeout.  Where the implementation selects against a timer or talks to the
+     network although the resource is available (the timeout may win; a dial or a PreCommit may fail), its
+     observed choice is the flag tmo of the event.  The theorems hold for every flag sequence.
    * fields marked ghost have no counterpart in the Go code; they only name things the theorems talk about
      (which attempt wrote a value, what the body did, the attempt number). *)
 From Coq Require Export List ZArith Bool Arith.
